@@ -102,6 +102,7 @@ type Stats struct {
 	Stubs       map[string]int64
 	MaxPathStep int64
 	UFRefinements int64
+	RaceQueries   int64
 }
 
 func newStats() *Stats {
@@ -151,6 +152,7 @@ func (s *Stats) merge(o *Stats) {
 		s.MaxPathStep = o.MaxPathStep
 	}
 	s.UFRefinements += o.UFRefinements
+	s.RaceQueries += o.RaceQueries
 }
 
 // Exec is one worker: an interpreter plus its own solver process.
@@ -190,6 +192,7 @@ type Exec struct {
 	clockLast  *Int
 	ufDecl     map[string]bool
 	ntpdef     int
+	race       raceState
 	expvarAnon map[*value]*expvarObj
 	fs         fsModel
 	compileCalls int
@@ -504,7 +507,9 @@ func (e *Exec) vAssert(c Bool, id string) {
 	e.st.Asserts[id]++
 	if c.T == nil {
 		if !c.C {
-			e.violationHere(id, "")
+			msg := e.race.lastMsg
+			e.race.lastMsg = ""
+			e.violationHere(id, msg)
 			panic(pathAbort{"assert failed concretely"})
 		}
 		return
@@ -716,6 +721,7 @@ func (e *Exec) runPath(prefix []int64) {
 	e.inInit = 0
 	e.ufDecl = map[string]bool{}
 	e.ntpdef = 0
+	e.race = raceState{names: map[*value]string{}}
 	e.expvarAnon = nil
 	e.fs = fsModel{}
 	e.compileCalls = 0
